@@ -29,7 +29,7 @@ type c02Case struct {
 func init() {
 	engine.Register(&engine.Check{
 		ID: "C02", Level: "model_checking",
-		Rule: "BFS over operation histories (depth <=5 quick, <=6 thorough) on real Polygon/MultiPoint/MultiLineString/MultiPolygon/GeometryCollection objects; alphabet = Push(part) for a per-type part menu incl. empty parts, parts with empty sub-parts and the receiver's own part accessors (storage aliasing), Push(wrong-layout part, same and different stride), for polygons a Push while the polygon is lent to a MultiPolygon whose accessor result is pushed to as well (either order), Reverse, Swap with a second geometry, g=g.Clone() keeping both sides live with their own models, switching between the two sides; start states: empty and three parts already pushed, for collections variadic Push with one bad member, Push of a spread slice that the caller overwrites afterwards, and SetLayout; invariants evaluated in every state against a list-of-parts model; states deduplicated on the full observable state incl. capacity Round 7: Layout(n>4) and XYZM at depth 3 in the quick tier; the wrong-layout Push tries every part of the menu; layout-less (NoLayout) geometries of the four Push-capable types to depth 4 with Reverse under a watchdog. Round 8: signed-zero Reverse sweep (6 types x 3 layouts x parts of 1..4 vertices x every ordinate column x every assignment of +0/-0). Round 9: a wide collection alphabet (members in XYZM and five ordinates, nested layout-less collections, empty nested collections, SetLayout XYZM / five ordinates) to depth 3; Reserve and Swap-with-itself operations. Round 11: Swap with a geometry of another layout and back (every observable exchanged); a ring pushed into the polygon handed out for a ring-less member; around every history a canary that new multi-part geometries still hand out empty parts for empty members.",
+		Rule: "BFS over operation histories (depth <=5 quick, <=6 thorough) on real Polygon/MultiPoint/MultiLineString/MultiPolygon/GeometryCollection objects; alphabet = Push(part) for a per-type part menu incl. empty parts, parts with empty sub-parts and the receiver's own part accessors (storage aliasing), Push(wrong-layout part, same and different stride), for polygons a Push while the polygon is lent to a MultiPolygon whose accessor result is pushed to as well (either order), Reverse, Swap with a second geometry, g=g.Clone() keeping both sides live with their own models, switching between the two sides; start states: empty and three parts already pushed, for collections variadic Push with one bad member, Push of a spread slice that the caller overwrites afterwards, and SetLayout; invariants evaluated in every state against a list-of-parts model; states deduplicated on the full observable state incl. capacity Round 7: Layout(n>4) and XYZM at depth 3 in the quick tier; the wrong-layout Push tries every part of the menu; layout-less (NoLayout) geometries of the four Push-capable types to depth 4 with Reverse under a watchdog. Round 8: signed-zero Reverse sweep (6 types x 3 layouts x parts of 1..4 vertices x every ordinate column x every assignment of +0/-0). Round 9: a wide collection alphabet (members in XYZM and five ordinates, nested layout-less collections, empty nested collections, SetLayout XYZM / five ordinates) to depth 3; Reserve and Swap-with-itself operations. Round 11: Swap with a geometry of another layout and back (every observable exchanged); a ring pushed into the polygon handed out for a ring-less member; around every history a canary that new multi-part geometries still hand out empty parts for empty members. Round 12: the longest line / ring of every part menu returns to its first position in X,Y only.",
 		Run:  c02Run,
 		Replay: func(c *engine.Ctx, kind string, raw json.RawMessage) {
 			if kind == "c02zero" {
@@ -303,6 +303,20 @@ func partMenu(k ref.Kind, l geom.Layout) []*ref.G {
 	case ref.MultiPolygon:
 		for i, sizes := range [][]int{{}, {0}, {1}, {2, 1}, {0, 2}, {5, 0, 4}} {
 			out = append(out, ref.NewParts(ref.Polygon, l, sizes, ref.CounterFrom(float64(10*(i+1)))))
+		}
+	}
+	// the longest lines and rings of the menu return to their first position in X and Y only
+	// (every other ordinate of the closing position keeps its own value): closed for every
+	// consumer that looks at X,Y, and still a list of distinct coordinates
+	closeXY := func(cs []ref.C) {
+		if len(cs) >= 4 && len(cs[0]) >= 2 {
+			cs[len(cs)-1][0], cs[len(cs)-1][1] = cs[0][0], cs[0][1]
+		}
+	}
+	for _, g := range out {
+		closeXY(g.C1)
+		for _, r := range g.C2 {
+			closeXY(r)
 		}
 	}
 	return out
